@@ -157,7 +157,7 @@ TSearch ==
           /\ refOf' = Rec[l].group
           /\ l' = l + 1 /\ UNCHANGED <<judged, rejected>>
 
-Uninterrupted == cur.budget = -1 /\ cur.movetime = -1 /\ cur.stop_us = -1
+Uninterrupted == cur.budget = -1 /\ cur.movetime = -1 /\ cur.stop_us = -1 /\ cur.clock = -1
 
 TWrite ==
   /\ Rec[l].ev = "ttwrite"
@@ -174,7 +174,7 @@ TWrite ==
 TAbort ==
   /\ Rec[l].ev = "abort"
   /\ IF Uninterrupted THEN Reject({"abort-in-uninterrupted-search"})
-     ELSE IF cur.budget # -1 /\ cur.movetime = -1 /\ cur.stop_us = -1 /\ Rec[l].nodes < cur.budget
+     ELSE IF cur.budget # -1 /\ cur.movetime = -1 /\ cur.stop_us = -1 /\ cur.clock = -1 /\ Rec[l].nodes < cur.budget
      THEN Reject({"abort-before-budget"})
      ELSE /\ aborted' = TRUE /\ l' = l + 1 /\ UNCHANGED <<cur, widx, ref, refOf, judged, rejected>>
 
@@ -188,7 +188,7 @@ TDone ==
   /\ l' = l + 1 /\ UNCHANGED <<cur, aborted, widx, ref, refOf, judged, rejected>>
 
 Init ==
-  /\ l = 1 /\ cur = [budget |-> -1, movetime |-> -1, stop_us |-> -1] /\ aborted = FALSE /\ widx = 0
+  /\ l = 1 /\ cur = [budget |-> -1, movetime |-> -1, stop_us |-> -1, clock |-> -1] /\ aborted = FALSE /\ widx = 0
   /\ ref = <<>> /\ refOf = -1 /\ judged = 0 /\ rejected = FALSE
   /\ Stateless
 
